@@ -270,8 +270,14 @@ type vendorBase struct {
 }
 
 type ExtNestedClaims struct {
+	// a bookkeeping field, excluded from both encodings, that is NOT the last field
+	Cache string `cbor:"-" json:"-"`
 	vendorBase
-	Product *string `cbor:"-75601,keyasint,omitempty" json:"x-product,omitempty"`
+	// (tag options in an unusual but legal order)
+	Product *string `cbor:"-75601,omitempty,keyasint" json:"x-product,omitempty"`
+	// a claim that exists in the CBOR form only, and one that exists in JSON only
+	Internal *string `cbor:"-75602,keyasint,omitempty" json:"-"`
+	Comment  *string `cbor:"-" json:"x-comment,omitempty"`
 }
 
 func (o *ExtNestedClaims) Validate() error { return psatoken.ValidateClaims(o) }
